@@ -2,7 +2,7 @@
 From Coq Require Import List NArith ZArith Bool Permutation Sorted.
 Import ListNotations.
 From SV.Num Require Import Dec NumGrammar NumGrammarProofs.
-From SV.Enc Require Import Prims Ty Val IR Compile JsonLite MapSort VM Exec StdEnc CompileWf TyLemmas Frag EncProofs.
+From SV.Enc Require Import Prims Ty Val IR Compile JsonLite MapSort VM Exec StdEnc CompileWf TyLemmas Frag EncProofs Total.
 
 (* alg/sort.go: the 3-way radix quicksort (insertion sort base case, heapsort fallback) sorts every list of keys
    bytewise, for every depth budget, and only permutes it *)
@@ -63,6 +63,33 @@ Theorem C03_marshal_agree_partial_vm : forall e co t v fuel res prog,
   agree (encode prims_vm e co std_flags (Some (t, v))) res.
 Proof. exact marshal_agree_vm. Qed.
 Print Assumptions C03_marshal_agree_partial_vm.
+
+(* the same without any hypothesis on the reference encoder: it is total on typed values of the fragment *)
+Theorem C03_marshal_agree_total_jit : forall e co t v prog,
+  (0 < MaxInlineDepth co)%nat ->
+  frag e t -> compilable e co t -> has_type (fok prims_jit) t v -> compile e co t false = COk prog -> (need v <= 4096)%nat ->
+  exists res, std_marshal e Qraw (S (need v)) (Some (t, v)) = SOk res /\ agree (encode prims_jit e co std_flags (Some (t, v))) res.
+Proof.
+  intros e co t v prog Hin Hf Hc Hv Hp Hn.
+  destruct (std_total e (fok prims_jit)) with (t := t) (v := v) (fuel := S (need v)) (addr := false) as [res Hr]; try assumption.
+  - intros k b txt (x & -> & _). eexists; reflexivity.
+  - apply le_n.
+  - exists res. split; [exact Hr|]. eapply marshal_agree_jit; eassumption.
+Qed.
+Print Assumptions C03_marshal_agree_total_jit.
+
+Theorem C03_marshal_agree_total_vm : forall e co t v prog,
+  (0 < MaxInlineDepth co)%nat ->
+  frag e t -> compilable e co t -> has_type (fok prims_vm) t v -> compile e co t false = COk prog -> (need v <= 4096)%nat ->
+  exists res, std_marshal e Qraw (S (need v)) (Some (t, v)) = SOk res /\ agree (encode prims_vm e co std_flags (Some (t, v))) res.
+Proof.
+  intros e co t v prog Hin Hf Hc Hv Hp Hn.
+  destruct (std_total e (fok prims_vm)) with (t := t) (v := v) (fuel := S (need v)) (addr := false) as [res Hr]; try assumption.
+  - intros k b txt (x & -> & _). eexists; reflexivity.
+  - apply le_n.
+  - exists res. split; [exact Hr|]. eapply marshal_agree_vm; eassumption.
+Qed.
+Print Assumptions C03_marshal_agree_total_vm.
 
 (* the machine-level statement behind it: the code compiled for a type of the fragment, placed anywhere in a program, at any
    inline depth and pv, run under any option word without NoNullSliceOrMap with the cursor on a value of that type, appends
